@@ -282,6 +282,14 @@ func statsOf(e *Encoder) Stats {
 // walks through all distance slots a window of that size can use.  The filler
 // between the probes is a cheap period-4 repetition.
 func GenFarLZMA2(r *prng.R, maxDist int64) (stream, content []byte, probes int) {
+	return GenFarLZMA2Fill(r, maxDist, "rep")
+}
+
+// GenFarLZMA2Fill is GenFarLZMA2 with a choice of filler: "rep" (period-4 repetition in LZMA
+// chunks), "raw" (uncompressed chunks of random bytes wherever 64 KiB fit in front of the next
+// probe) or "mixed" (either, chosen per 64 KiB).  With raw filler the dictionary is mostly
+// written by the uncompressed-chunk path and the probes then reach back across it.
+func GenFarLZMA2Fill(r *prng.R, maxDist int64, fill string) (stream, content []byte, probes int) {
 	w := &Window{DictSize: maxDist}
 	p := Props{LC: r.Intn(4), LP: 0, PB: r.Intn(5)}
 	enc := NewEncoder(NewModel(p), w)
@@ -292,6 +300,12 @@ func GenFarLZMA2(r *prng.R, maxDist int64) (stream, content []byte, probes int) 
 				todo = append(todo, d)
 			}
 		}
+	}
+	// with raw filler the probes are shifted by a lead so that the positions 2^k of the
+	// content are crossed by filler, not by the probes themselves
+	var lead int64
+	if fill != "rep" {
+		lead = int64(r.Range(70000, 400000))
 	}
 	first := true
 	flush := func(start int) {
@@ -315,16 +329,30 @@ func GenFarLZMA2(r *prng.R, maxDist int64) (stream, content []byte, probes int) 
 			flush(start)
 			start = len(w.Out)
 		}
-		if int64(len(w.Out)) >= todo[ti] {
+		if int64(len(w.Out)) >= todo[ti]+lead {
 			enc.Put(Op{Kind: OpMatch, Dist: uint32(todo[ti]), Len: r.Range(2, 9)})
 			enc.Put(Op{Kind: OpLit, Byte: byte(r.U64())})
 			probes++
 			ti++
 			continue
 		}
+		if rem := todo[ti] + lead - int64(len(w.Out)); fill != "rep" && rem > 66000 && (fill == "raw" || r.Chance(1, 3)) {
+			if len(w.Out)-start > 0 {
+				flush(start)
+			}
+			raw := make([]byte, r.Pick(65536, 65536, 65536, 65535, 1, 40000))
+			r.Bytes(raw)
+			w.Out = append(w.Out, raw...)
+			stream = append(stream, LZMA2RawHeader(false, len(raw))...)
+			stream = append(stream, raw...)
+			start = len(w.Out)
+			continue
+		}
 		enc.Put(Op{Kind: OpMatch, Dist: uint32(r.Pick(4, 4, 8)), Len: MatchMaxLen})
 	}
-	flush(start)
+	if len(w.Out)-start > 0 {
+		flush(start)
+	}
 	stream = append(stream, 0)
 	return stream, w.Out, probes
 }
